@@ -945,11 +945,11 @@ class WCap(Unit):
     module = MOD
     qualname = f"{CLS}.w_W_cap"
     prop = "C09"
-    timeout = 10
+    timeout = 30        # l = 6: the loop-step goals take ~5 s on an idle core; the budget leaves room for a fully loaded machine
     # the two loop-step goals are "the stored polynomial at (n, i) is the closed form at (n, i)": equal up to substitution of equal
     # indices — decided with the products as uninterpreted functions (sound for unsat) by congruence, for every degree; without it the
     # nonlinear solvers need seconds for l = 2 and give up for l = 6
-    solver_opts = {"uf_abstraction": True, "uf_abstraction_timeout": 10}
+    solver_opts = {"uf_abstraction": True, "uf_abstraction_timeout": 40}
 
     def cases(self):
         # concrete degrees: the loop over the (2l+1)^3 index triples of Wignerindex is executed, the particle / frame loops are summarised
